@@ -330,6 +330,13 @@ def int_from_bytes(I, b, byteorder="big", signed=False):
     n = b.fixed_len()
     if n is None:
         n = fix(I, b).fixed_len()
+    if n is None and not signed and not isinstance(byteorder, SVal):
+        # case split on the length up to 16 octets (one decision per candidate); longer stays outside the subset
+        ln = b.length()
+        for k in range(17):
+            if I.path.decide(ln == k):
+                n = fix(I, b).fixed_len()
+                break
     if n is None or signed or isinstance(byteorder, SVal):
         raise Unsupported("int.from_bytes of symbolic-length bytes")
     bb = SBytes(b.segs).expand()
